@@ -59,6 +59,13 @@ Definition spec_outcome (m : str) (stdio : bool) (f : facts) : outcome :=
   else if stdio then Accept
   else if sat (flags_of m) f then Accept else PathErr.
 
+(* a string with a NUL character names nothing in any file system: no mode is satisfied by it — not even the
+   empty mode or a negation ("not a file"), which are statements about what the file system answers for a path *)
+Definition spec_init (m given : str) (f : facts) : outcome :=
+  if negb (spec_check_mode m) then ValErr
+  else if existsb (N.eqb 0) given then PathErr
+  else spec_outcome m (str_eqb given [45]%N) f.
+
 (* relative = the spelling given; absolute = an absolute path that is either the (user-expanded)
    spelling itself or that spelling below the working directory *)
 Definition spec_names_ok (home cwd given rel ab : str) : bool :=
